@@ -74,6 +74,15 @@ def afterPowerFailure (d : GD) : List Rec :=
   | .done n out => out ++ (d.a.g.log.drop n).take (d.synced - n)
   | _ => d.a.g.log.take d.synced
 
+/-- the same with an arbitrary survivor frontier `j` (`synced ≤ j ≤ |log|`): the page cache may have
+written back more than what was explicitly flushed; the active file is the only one with unflushed
+records (a rotation flushes the file it retires) and a hole in it ends the replay, so the survivors
+are a prefix.  `afterPowerFailure d = afterPowerFailureAt d d.synced`. -/
+def afterPowerFailureAt (d : GD) (j : Nat) : List Rec :=
+  match d.a.m with
+  | .done n out => out ++ (d.a.g.log.drop n).take (j - n)
+  | _ => d.a.g.log.take j
+
 /-! ## executable form (forced schedules) -/
 
 inductive LabelD
